@@ -11,6 +11,13 @@
 #include <utility>
 #include <vector>
 
+#ifdef CAPPUCCINO_VERIF_HOOKS
+namespace cappuccino_verif
+{
+struct access;
+} // namespace cappuccino_verif
+#endif
+
 namespace cappuccino
 {
 /**
@@ -350,6 +357,11 @@ private:
 
         return deleted;
     }
+
+#ifdef CAPPUCCINO_VERIF_HOOKS
+    /// Verification harness access to the private structure (structural correspondence tier).
+    friend struct ::cappuccino_verif::access;
+#endif
 
     /// Thread lock for all mutations.
     mutable mutex<thread_safe_type> m_lock;
